@@ -370,7 +370,7 @@ pub fn run(ctx: &mut Ctx) {
     ctx.exhaustive.insert("all 400 error codes x {ERROR-CODE, ADDRESS-ERROR-CODE}".into(), ctx.only.is_none());
 
     // XOR addresses: every transaction-id byte participates exactly where the RFC says
-    let n = ctx.n(2_000, 40_000);
+    let n = ctx.n(2_000, 150_000);
     ctx.cases("xor", n, |ctx, case, rng| {
         let addr = gen::sockaddr(rng);
         let kind = *rng.pick(&[2usize, 18, 19]);
@@ -405,7 +405,7 @@ pub fn run(ctx: &mut Ctx) {
     });
 
     // every kind with generated values; noise: random, all-ones, and exhaustive small domains
-    let per_kind = ctx.n(2_000, 40_000);
+    let per_kind = ctx.n(2_000, 150_000);
     ctx.cases("kinds", per_kind * gen::ORDINARY_KINDS as u64, |ctx, case, rng| {
         let kind = (case % gen::ORDINARY_KINDS as u64) as usize;
         let a = gen::attr_of_kind(rng, kind, &cfg);
@@ -452,7 +452,7 @@ pub fn run(ctx: &mut Ctx) {
     // encoder contexts with custom padding (feature `experiments`): padding bytes take the
     // configured value everywhere (also between PASSWORD-ALGORITHMS entries), nothing else
     // changes; with random padding the message still decodes to the same content
-    let n = ctx.n(6_000, 200_000);
+    let n = ctx.n(6_000, 800_000);
     ctx.cases("custom-padding", n, |ctx, case, rng| {
         use stun_rs::{EncoderContextBuilder, MessageEncoderBuilder, StunPadding};
         let mut m = gen::message(rng, 6, &cfg);
@@ -510,7 +510,7 @@ pub fn run(ctx: &mut Ctx) {
 
     // random messages, both directions
     let max_attrs = if ctx.quick() { 10 } else { 30 };
-    let n = ctx.n(100_000, 2_000_000);
+    let n = ctx.n(100_000, 8_000_000);
     ctx.cases("msgs", n, |ctx, case, rng| {
         let m = gen::message(rng, max_attrs, &cfg);
         let nontrivial = !m.attrs.is_empty();
